@@ -270,6 +270,10 @@ func runJob(c *collector, j job, methods []string, base string) (failed bool) {
 }
 
 func main() {
+	if dir := os.Getenv("C18_FS_SESSION"); dir != "" {
+		sessionChild(dir) // the live session of sessionFaultChecks (fsmodel.go)
+		return
+	}
 	if spec := os.Getenv("C18_FS_CHILD"); spec != "" {
 		fsChild(spec) // the process traced by strace (fsmodel.go)
 		return
